@@ -50,6 +50,7 @@ def workload(ctx):
     """[(name, construct, src)]"""
     rng = ctx.rng
     quick = ctx.tier == "quick"
+    scale = float(os.environ.get("VERIF_SCALE", "1"))       # smoke-testing aid: shrinks the thorough volumes
     progs = []
     cdir = os.path.join(vlib.VERIF, "corpus", "C11")
     for f in sorted(glob.glob(os.path.join(cdir, "*.wa.go"))):
@@ -61,9 +62,9 @@ def workload(ctx):
             grp = names[i:i + 3]
             progs.append(("alias:" + "+".join(grp), "alias:" + "+".join(grp), c11_progs.alias_program(grp, ks=(1, 6))))
     else:
-        for nm in names:
+        for nm in names[:max(1, int(len(names) * scale))]:
             progs.append(("alias:" + nm, "alias:" + nm, c11_progs.alias_program([nm], ks=(0, 1, 2, 6, 13, 40))))
-    for i in range(6 if quick else 80):
+    for i in range(6 if quick else max(1, int(80 * scale))):
         r = random.Random(rng.getrandbits(48))
         progs.append(("random-alias:%d" % i, "random-alias", c11_progs.random_alias_program(r, nops=40 if quick else 90)))
     # the feature matrix: every usage context of every reference-bearing value type, three iterations each
@@ -72,7 +73,7 @@ def workload(ctx):
         progs.append(("matrix:" + t, "matrix:" + t, src))
     try:
         from gen import progs as gp
-        for i in range(8 if quick else 120):
+        for i in range(8 if quick else max(1, int(120 * scale))):
             r = random.Random(rng.getrandbits(48))
             p = gp.gen_program(r, size=["small", "medium", "large"][i % 3] if not quick else ["small", "medium"][i % 2], stream="safe")
             progs.append(("generated:%d" % i, "generated", p.render_go()))
